@@ -24,6 +24,7 @@
 #include "wincompat.h"
 
 #include <errno.h>
+#include <float.h>
 #include <stdio.h>
 #include <stdlib.h>
 #include <string.h>
@@ -197,6 +198,17 @@ void libconfig_format_double(double val, int precision, int sci_ok, char *buf,
   char *p, *q;
 
   snprintf(buf, buflen - 3, fmt, precision, val);
+
+  /* At a low precision, a value close to DBL_MAX rounds up to a literal that
+   * is out of range and could not be read back; write it with enough digits
+   * to be exact instead.
+   */
+  if(sci_ok && (val >= -DBL_MAX) && (val <= DBL_MAX))
+  {
+    double back = strtod(buf, NULL);
+    if((back > DBL_MAX) || (back < -DBL_MAX))
+      snprintf(buf, buflen - 3, "%.17g", val);
+  }
 
   /* Check for exponent. */
   p = strchr(buf, 'e');
